@@ -810,6 +810,11 @@ ExitStatus Builder::Build(string* err) {
         bool command_finished = FinishCommand(cc, err);
         SetFailureCode(result.exit_status());
         if (!command_finished) {
+          // FinishCommand() can fail before Plan::EdgeFinished() has handed
+          // back the job slot of this edge, and the command runner no longer
+          // knows the edge, so release the slot here (no-op if already done).
+          if (jobserver_.get())
+            jobserver_->Release(std::move(cc.edge->job_slot_));
           Cleanup();
           status_->BuildFinished();
           if (result.success()) {
